@@ -9,6 +9,10 @@ oracle (tie O): all byte strings equal; JSON text is exactly `json.dumps(parsed,
 (sorted keys at every level, 4-space indentation); treeinfo text has sorted sections and sorted options; caller-ordered
 lists (additional_variants, disc numbers, module rpm lists, extra-file entries) come out in the caller's order; the object
 after the dumps differs from the object before only in what the model says a dump changes.
+repeat-dump dimension (op `c08_seq`): ONE object, sequences mixing `dump(main_variant=<each top-level key>)` and plain dumps in every
+order (treeinfo, >= 2 top-level variants) resp. dumps -> (load into another object | read attributes | get_variants | dump_for_tree)
+-> dumps (JSON formats, discinfo); every output is compared with a FRESH object of the same content dumped with the same argument
+(hidden state of the real object; the model's dump is pure, C08_repeat_treeinfo).
 correspondence (tie C): the Lean model's rendering of the base order and of every rearranged order (the definitions the
 C08 theorems are about) equals the real bytes.
 """
@@ -381,9 +385,64 @@ class C08(Prop):
                 orders = [0] + [rng.randrange(1, 10 ** 6) for _ in range(k)]
                 yield {"op": "c08", "args": {"fmt": fmt, "spec": spec, "mv": mv, "orders": orders, "ndumps": rng.choice([1, 2, 3]),
                                             "hashseeds": seeds}}
+        for c in self.seq_cases(rng, tier, budget, seeds):
+            yield c
+
+    def seq_cases(self, rng, tier, budget, seeds):
+        """repeat-dump dimension: ONE object, a sequence of dumps and uses; every dump is compared with a FRESH object of the same
+        content dumped with the same argument.  treeinfo: `dump(main_variant=<each top-level key>)` and plain dumps in every order
+        (all permutations for <= 3 arguments, 6 random ones otherwise), each followed by one more plain dump; JSON formats and
+        discinfo: dumps -> (load the text into another object | read every attribute | get_variants / __getitem__ | dump_for_tree)
+        -> dumps."""
+        import itertools
+        n_ti = max(6, budget // 14)
+        made = 0
+        tries = 0
+        while made < n_ti and tries < 40 * n_ti:
+            tries += 1
+            spec, _ = FTI.gen(rng, tier)
+            keys = [v["key"] for v in spec["variants"]]
+            if len(keys) < 2:
+                continue
+            if made % 2 == 0:
+                spec = boost_treeinfo(spec, rng)
+            items = [None] + sorted(keys)
+            perms = list(itertools.permutations(items))
+            if len(perms) > 6:
+                perms = rng.sample(perms, 6)
+            for pm in perms:
+                steps = [{"dump": x} for x in pm] + [{"dump": None}]
+                if rng.random() < 0.3:
+                    steps.insert(rng.randrange(1, len(steps)), {"touch": rng.choice(["attrs", "get_variants", "load_other"])})
+                yield {"op": "c08_seq", "args": {"fmt": "treeinfo", "spec": spec, "steps": steps, "hashseeds": seeds[:1]}}
+            made += 1
+        others = [f for f in self.formats() if f != "treeinfo"]
+        per = max(2, budget // 70)
+        for fmt in others:
+            for i in range(per):
+                spec, _ = self.gen_spec(fmt, rng, tier, i)
+                touches = ["load_other", "attrs", "get_variants", "dump_for_tree"]
+                rng.shuffle(touches)
+                steps = [{"dump": None}]
+                for t in touches:
+                    steps += [{"touch": t}, {"dump": None}]
+                yield {"op": "c08_seq", "args": {"fmt": fmt, "spec": spec, "steps": steps, "hashseeds": seeds[:1]}}
 
     # ---- real side
+    def real_seq(self, case):
+        a = case["args"]
+        checklib.use_repo()
+        req = {"mode": "seq", "fmt": a["fmt"], "spec": a["spec"], "steps": a["steps"]}
+        try:
+            ans = self.workers.ask(list(a.get("hashseeds") or QUICK_SEEDS[:1]), req)
+        except (BrokenPipeError, OSError) as e:
+            raise checklib.Infra("C08 worker: %s" % e)
+        hs = sorted(ans)[0]
+        return {"seq": ans[hs]["steps"], "err": ans[hs].get("err")}
+
     def real(self, case):
+        if case["op"] == "c08_seq":
+            return self.real_seq(case)
         a = case["args"]
         fmt = a["fmt"]
         checklib.use_repo()
@@ -427,6 +486,14 @@ class C08(Prop):
     def model_requests(self, case):
         a = case["args"]
         fmt = a["fmt"]
+        if case["op"] == "c08_seq":
+            if fmt != "treeinfo":
+                return []
+            mvs = []
+            for st in a["steps"]:
+                if "dump" in st and st["dump"] not in mvs:
+                    mvs.append(st["dump"])
+            return [{"op": "ti_dumps", "args": {"spec": a["spec"], "main_variant": mv}} for mv in mvs]
         reqs = []
         for s in a["orders"][:3]:
             spec = permute(fmt, a["spec"], s)
@@ -444,6 +511,12 @@ class C08(Prop):
 
     def model_result(self, case, outs):
         fmt = case["args"]["fmt"]
+        if case["op"] == "c08_seq":
+            mvs = []
+            for st in case["args"]["steps"]:
+                if "dump" in st and st["dump"] not in mvs:
+                    mvs.append(st["dump"])
+            return dict((json.dumps(mv), (o["ok"]["text"] if "ok" in o else "ERR:" + str(o.get("err")))) for mv, o in zip(mvs, outs))
         res = []
         for o in outs:
             if fmt == "composeinfo":
@@ -458,13 +531,43 @@ class C08(Prop):
         return res
 
     def compare(self, case, real_out, model_out):
+        if case["op"] == "c08_seq":
+            # the model's dump is a pure function of (content, main_variant): it must be what a FRESH real object writes
+            for st in real_out["seq"]:
+                if "fresh" in st:
+                    m = model_out.get(json.dumps(st["dump"]))
+                    if m is not None and m != st["fresh"] and not (m.startswith("ERR:") and st["fresh"].startswith("ERR:")):
+                        return {"real": _excerpt(st["fresh"], m), "model": _excerpt(m, st["fresh"])}
+            return None
         for m, r in zip(model_out, real_out["order_texts"]):
             if m != r:
                 return {"real": _excerpt(r, m), "model": _excerpt(m, r)}
         return None
 
     # ---- the property on the real output
+    def oracle_seq(self, case, real_out):
+        a = case["args"]
+        first = None
+        for i, st in enumerate(real_out["seq"]):
+            if "fresh" not in st:
+                continue
+            if st["text"] != st["fresh"]:
+                return {"kind": "history-dependent",
+                        "observed": {"step": i, "call": "dump(main_variant=%r)" % (st["dump"],), "history": a["steps"][:i],
+                                     "this object": _excerpt(st["text"], st["fresh"]), "fresh object, same content, same call": _excerpt(st["fresh"], st["text"])},
+                        "required": "a dump writes what a fresh object with the same content writes for the same call, whatever was dumped or read before"}
+            if a["fmt"] != "treeinfo":
+                if first is None:
+                    first = st["text"]
+                elif st["text"] != first:
+                    return {"kind": "history-dependent", "observed": {"step": i, "history": a["steps"][:i], "text": _excerpt(st["text"], first),
+                                                                      "first dump": _excerpt(first, st["text"])},
+                            "required": "every dumps() of the unchanged object equals the first"}
+        return None
+
     def oracle(self, case, real_out):
+        if case["op"] == "c08_seq":
+            return self.oracle_seq(case, real_out)
         a = case["args"]
         fmt = a["fmt"]
         shas = set(row[-1] for row in real_out["table"])
@@ -497,11 +600,22 @@ class C08(Prop):
         return None
 
     def nontrivial(self, case, real_out):
+        if case["op"] == "c08_seq":
+            return real_out.get("err") is None and sum(1 for st in real_out["seq"] if "fresh" in st and not st["text"].startswith("ERR:")) >= 2
         return real_out.get("first") is not None and (len(case["args"]["orders"]) >= 2 or case["args"]["fmt"] == "discinfo")
 
     def stats(self, case, real_out, dist):
         a = case["args"]
         fmt = a["fmt"]
+        if case["op"] == "c08_seq":
+            k = "seq:" + fmt
+            dist[k] = dist.get(k, 0) + 1
+            dist["seq:dumps compared with a fresh object"] = dist.get("seq:dumps compared with a fresh object", 0) + sum(1 for st in real_out["seq"] if "fresh" in st)
+            if fmt == "treeinfo":
+                mvs = [st["dump"] for st in a["steps"] if "dump" in st]
+                if any(x is not None for x in mvs[:-1]) and mvs[-1] is None:
+                    dist["seq:treeinfo plain dump after dump(main_variant=X)"] = dist.get("seq:treeinfo plain dump after dump(main_variant=X)", 0) + 1
+            return
         dist[fmt] = dist.get(fmt, 0) + 1
         dist["runs"] = dist.get("runs", 0) + len(real_out["table"])
         dist["hashseeds"] = max(dist.get("hashseeds", 0), len(a.get("hashseeds") or []))
@@ -516,6 +630,29 @@ class C08(Prop):
         a = case["args"]
         fmt, spec = a["fmt"], a["spec"]
         out = []
+        if case["op"] == "c08_seq":
+            for i in range(len(a["steps"])):
+                if len(a["steps"]) > 1:
+                    c = copy.deepcopy(case)
+                    del c["args"]["steps"][i]
+                    out.append(c)
+            if fmt == "treeinfo":
+                used = set(st.get("dump") for st in a["steps"])
+                for key in ("checksums", "images"):
+                    if spec[key]:
+                        c = copy.deepcopy(case)
+                        c["args"]["spec"][key] = []
+                        out.append(c)
+                for i, v in enumerate(spec["variants"]):
+                    if v["key"] not in used and len(spec["variants"]) > 1:
+                        c = copy.deepcopy(case)
+                        del c["args"]["spec"]["variants"][i]
+                        out.append(c)
+                    if v["variants"]:
+                        c = copy.deepcopy(case)
+                        c["args"]["spec"]["variants"][i]["variants"] = []
+                        out.append(c)
+            return out
 
         def with_spec(s):
             c = copy.deepcopy(case)
